@@ -120,7 +120,17 @@ def runAppH : Handler := fun j => do
   let msgs ← msgsOfJson j "msgs"
   let app ← appOfJson (← j.getObjVal? "app")
   let o := wrapper v kind max sc msgs app
-  pure (Json.mkObj [("sent", Json.arr (o.sent.map jsonOfMsg).toArray), ("app_calls", toJson o.appCalls),
+  -- end to end: optional "worker" (asyncio / trio) and "susp" (which sends suspend) → the messages the stream accepts
+  let acc : Option (List Msg) := match getOpt j "worker", getOpt j "susp" with
+    | some wj, some sj =>
+      match wj.getStr?, sj.getArr? with
+      | .ok wn, .ok arr =>
+        let flags := arr.toList.map (fun b => (b.getBool?.toOption.getD false))
+        let w := if wn = "trio" then Worker.trio else Worker.asyncio
+        some (accepted w (fun i => flags.getD i (flags.getLast?.getD false)) o.sent)
+      | _, _ => none
+    | _, _ => none
+  pure (Json.mkObj [("accepted", optJson (fun l => Json.arr (l.map jsonOfMsg).toArray) acc), ("sent", Json.arr (o.sent.map jsonOfMsg).toArray), ("app_calls", toJson o.appCalls),
     ("spawns", toJson o.spawns), ("close_calls", toJson o.closeCalls), ("iter_close_calls", toJson o.iterCloseCalls), ("iter_obtained", o.iterObtained),
     ("exc", optJson (fun e => Json.str (pyErrName e)) o.exc), ("waiting", o.waiting),
     ("environ", optJson jsonOfEnviron o.environ)])
